@@ -14,9 +14,21 @@ def projects(tier, seed):
     rnd = core.rng_for("c08proj", seed, tier)
     ps = [fault.small_project(rnd, nfiles=4, stmts=(1, 3), label="p0"),
           fault.small_project(rnd, nfiles=3, stmts=(1, 4), structured=True, lock=core.lock_text(300), label="p1"),
-          fault.small_project(rnd, nfiles=2, stmts=(1, 2), big=40000, use_cache=False, label="p2")]
-    if tier == "thorough":
-        for j in range(60):
+          fault.small_project(rnd, nfiles=2, stmts=(1, 2), big=40000, use_cache=False, label="p2"),
+          # ambient state that must not matter: write-protected sources, a stale lock scratch copy, editor droppings
+          fault.small_project(rnd, nfiles=3, stmts=(1, 3), label="p_ro", ambient_kind="ro_sources"),
+          fault.small_project(rnd, nfiles=2, stmts=(1, 3), structured=True, label="p_stale", ambient_kind="stale_lock_tmp"),
+          fault.small_project(rnd, nfiles=2, stmts=(1, 3), label="p_sib", ambient_kind="siblings")]
+    # structured project whose files mix statements lacking a reference with statements whose `ref` value is unusable (left alone,
+    # never counted) and ignored ones
+    ps.append(fault.Project({
+        "src/u.rs": b'fn u() {\n    info!(ref = request_id; "Pu unusable one");\n    warn!("Pu needs one");\n'
+                    b'    error!(a = 1, ref = "x"; "Pu unusable two");\n    info!(b = 2; "Pu needs another");\n'
+                    b'    // breadlog:ignore\n    error!("Pu ignored");\n}\n',
+        "src/v.rs": b'fn v() {\n    info!(ref = 1.5; "Pv only unusable");\n}\n',
+        "src/w.rs": b'fn w() {\n    warn!(k = 1; "Pw needs one");\n}\n'}, structured=True, label="p_unusable"))
+    if True:
+        for j in range(60 if tier == "thorough" else 10):
             ps.append(fault.small_project(rnd, nfiles=rnd.choice([2, 3, 4]), stmts=(1, 5), structured=rnd.random() < 0.5,
                                           lock=rnd.choice([None, core.lock_text(900)]), label="q%d" % j))
     return ps
